@@ -1855,7 +1855,12 @@ pub(crate) fn resolve_temp_id(id: &str) -> Option<usize> {
             if !x.is_uppercase() {
                 return None;
             }
-            return iter.as_str().parse().ok();
+            //the number is a plain sequence of digits (str::parse() on its own would also accept a leading '+')
+            let number = iter.as_str();
+            if number.is_empty() || !number.bytes().all(|b| b.is_ascii_digit()) {
+                return None;
+            }
+            return number.parse().ok();
         }
     }
     None
